@@ -145,3 +145,10 @@ Definition ndp_show (st : ndp_st) : value :=
       vx (st_slla st); vx (st_tlla st);
       VL [VN (st_dnssl_lt st); VL (map vx (st_domains st))];
       (let '(pl, prf, lt, pfx) := st_route st in VL [VN pl; VN prf; VN lt; vx pfx])].
+
+(* ---- a getter call as a step on the store (the slice with its storage up to the capacity).  The model's getters
+   are built from idx / sl / slfrom / be16_at / be32_at only: reads.  There is no write primitive, so the store
+   after a call is the store before it; this is the statement the harness ties (every call is made on a poisoned
+   backing array that is compared before and after, and is made twice). ---- *)
+Definition getter_step (g : getter) (store : slice) : res value * slice := (g store, store).
+Definition valid_step (isvalid : slice -> res bool) (store : slice) : res bool * slice := (isvalid store, store).
